@@ -198,7 +198,7 @@ func checkC16(c *core.Ctx, r *core.Report) {
 			r.Check(ok, "DEPENDS", construct, c.Pos(call.Pos()), "the timestamp key passed is config.GetTimeStampKey()", "the event is parsed with a timestamp key other than the configured one: its own time field is not recognised")
 		}
 	}
-	r.Floor("DEPENDS", "protocol handler GetNewPLE sites", nPle, 6)
+	r.Floor("DEPENDS", "protocol handler GetNewPLE sites", nPle, 4)
 
 	// ---------------------------------------------------------------- (6)
 	{
